@@ -257,6 +257,52 @@ def lemmas(reg):
               note='per axis: |q-p| <= voxel size implies the (clamped) voxel indices differ by at most one', inputs=[p, q, m, s, nn])
 
 
+# ---- get_neighborhood(position): every point of the box (faces and corners included) is answered through the voxel of that point ----------------------------
+def pre_neigh_pos(C):
+    o = C.old
+    out = pre_3d(C)
+    nx, ny, nz = [g(o, C.this, 'nb_voxels_%s_' % a) for a in AX]
+    lst = o.sub(C.this, 'uspg_4d<face *>.voxel_lst_')
+    out.append(('one-slot-per-voxel', o.len(lst) == nx * ny * nz))
+    for a in AX:
+        p = C.val('pos_' + a)
+        # the closed box: a point on an upper face (pos == max) is a point of the grid
+        out.append(('pos-%s-inside-the-closed-box' % a, z3.And(p >= g(o, C.this, 'min_%s_' % a), p <= g(o, C.this, 'max_%s_' % a))))
+    return out
+
+
+def neigh_ids_callee(sig):
+    def on_call(C, st):
+        from values import GuardedLog
+        st.ghost['neigh_calls'] = st.ghost.get('neigh_calls', GuardedLog()).add(tuple(C.val('object_voxel_%s_id' % a) for a in AX))
+    def rm(C, st):
+        v = C.e.fresh('neighborhood.result', I)
+        st.ghost['neigh_result'] = v
+        from values import ObjLV
+        import ty as TY
+        return ObjLV(v, TY.parse('std::forward_list<face *>'))
+    return Contract('uspg_4d<face *>::get_neighborhood', PROP, signature=sig, frame=lambda C: [], on_call=on_call, ret_model=rm, assumed=True,
+                    name='uspg_4d<face *>::get_neighborhood(voxel ids) (own contracts above; call recorded)')
+
+
+def post_neigh_pos(C):
+    o = C.old
+    g_ = C.post_state.ghost
+    log = g_.get('neigh_calls')
+    entries = log.entries if log is not None else []
+    want = []
+    for a in AX:
+        p = C.val('pos_' + a); lo = g(o, C.this, 'min_%s_' % a); s = g(o, C.this, 'voxel_size_')
+        fl = z3.ToInt((p - lo) / s); nb_ = g(o, C.this, 'nb_voxels_%s_' % a)
+        want.append(z3.If(fl < nb_ - 1, fl, nb_ - 1))
+    called = z3.Or(*[z3.And(gd, *[v == w for v, w in zip(vs, want)]) for (gd, vs) in entries]) if entries else z3.BoolVal(False)
+    out = [('the-query-is-answered-through-the-voxel-of-the-point-for-every-point-of-the-closed-box', called)]
+    if 'neigh_result' in g_ and hasattr(C.ret, 'ref'):
+        out.append(('the-answer-of-the-voxel-query-is-returned', z3.Or(*[z3.Implies(gd, C.ret.ref == g_['neigh_result']) for (gd, vs) in entries]) if entries else z3.BoolVal(False)))
+    return out
+
+
+
 def build(reg):
     for cls in ('uspg_4d<face *>', 'uspg_4d<oriented_point>', 'uspg_3d<unsigned short>'):
         reg.add(Contract(cls + '::update_dimensions', PROP, pre=pre_update, post=post_update(cls), safety={'wrap', 'narrowing'}))
@@ -271,6 +317,9 @@ def build(reg):
                      safety={'wrap'}, name='uspg_4d<face *>::get_neighborhood(voxel ids)::<loop bounds>'))
     reg.add(Contract('uspg_4d<face *>::get_neighborhood', PROP, signature=sig, pre=pre_neigh_body, post=post_neigh_body, slice_loop=2,
                      safety={'bounds', 'wrap'}, name='uspg_4d<face *>::get_neighborhood(voxel ids)::<loop body>'))
+    c3d = [c for c in reg.contracts if c.qname == 'uspg_abstract::get_3d_voxel_index'][0]
+    reg.add(Contract('uspg_4d<face *>::get_neighborhood', PROP, signature='(const double, const double, const double)', pre=pre_neigh_pos, post=post_neigh_pos,
+                     use=[c3d, neigh_ids_callee(sig)], safety={'wrap', 'narrowing'}, name='uspg_4d<face *>::get_neighborhood(position)'))
     reg.add(Contract('uspg_4d<face *>::get_grid_content', PROP, pre=pre_content_body, post=post_content_body, slice_loop=2,
                      safety={'bounds', 'wrap'}, name='uspg_4d<face *>::get_grid_content::<loop body>'))
     reg.add(Contract('uspg_4d<face *>::get_voxel_content', PROP, pre=pre_voxel_content, post=post_voxel_content, safety={'bounds', 'wrap'}, assigns=[]))
